@@ -562,7 +562,7 @@ def make_run_plan(run_seed: int, profile: str, tier: str = "quick", overrides: d
                     pattern = _loop_pattern(rng, k, rng.randint(12, 40))
                 elif k > 2:
                     pattern = _loop_pattern(rng, k, rng.randint(5, 9) if s0["kind"] == "SIM" else rng.randint(5, 12))
-                loops.append((slist, w, hnd, rng.choice(["float", "float", "np0d", "np", "int"]), pattern))
+                loops.append((slist, w, hnd, rng.choice(["float", "float", "np0d", "np", "int", "np_rov"]), pattern))
 
         def emit_loop(lp, tag):
             slist, w, hnd, mleaf, pattern = lp
@@ -626,7 +626,7 @@ def make_run_plan(run_seed: int, profile: str, tier: str = "quick", overrides: d
             if extras["mutate"] and rng.random() < 0.5:
                 key = f"P{inc_index}w{w}:{s['mid']}"
                 cur = priv.get(key)
-                mleaf = rng.choice(["np0d", "float", "np", "int", "npint"]) if cur is None else cur[1]
+                mleaf = rng.choice(["np0d", "float", "np", "int", "npint", "np_rov"]) if cur is None else cur[1]
                 if cur is not None and cur[0] != s["pid"]:
                     ops.append({"id": b.oid(), "kind": "MUTATE", "worker": w, "obj": ["params", key], "to": s["pid"], "leaf": mleaf, "model_id": s["mid"]})
                 priv[key] = (s["pid"], mleaf)
@@ -778,6 +778,7 @@ def make_run_plan(run_seed: int, profile: str, tier: str = "quick", overrides: d
                 "hashseed": hashseeds[2],
                 "sched": {"seed": sched_seeds[2], "quanta": QUANTA, "weights": QUANTA_MIXES[quanta_mix], "write_p": 0.0},
                 "phases": [{"name": "reference", "n_workers": 1, "ops": ref_ops_iso}],
+                "iso": True,
             }
         )
 
